@@ -23,6 +23,7 @@
 #include <atomic>
 #include <bitset>
 #include <cxxabi.h>
+#include <fstream>
 #include <map>
 #include <sched.h>
 #include <set>
@@ -32,6 +33,7 @@
 #include <time.h>
 #include <tuple>
 #include <typeinfo>
+#include <unistd.h>
 #include <vector>
 
 #include "celma/prog_args.hpp"
@@ -97,16 +99,18 @@ namespace {
 // ------------------------------------------------------------------ scenarios
 
 enum Kind { K_VEC_INT = 0, K_VEC_STR, K_MAP, K_REQUIRES, K_EXCLUDES, K_GLOBAL, K_CHECKS, K_USAGE, K_LISTVARS,
-            K_TUPLE, K_BITSET, K_SET_FORMAT, K_ENVVAR, NKINDS };
+            K_TUPLE, K_BITSET, K_SET_FORMAT, K_ENVVAR, K_ARGFILE, NKINDS };
 const char* const kindNames[NKINDS] = { "vector-int", "vector-string", "map", "requires", "excludes", "global-constraint",
-                                        "checks", "usage", "list-arg-vars", "tuple-array", "bitset", "set-format", "env-var" };
+                                        "checks", "usage", "list-arg-vars", "tuple-array", "bitset", "set-format", "env-var", "arg-file" };
 /// family of a scenario kind = what the stable key of a sequential-equivalence violation names
 /// (one defect in shared state must not produce a dozen keys, different areas stay apart)
 const char* const kindFamily[NKINDS] = { "container-values", "container-values", "container-values", "constraints", "constraints",
                                          "constraints", "checks", "output", "output", "container-values", "container-values",
-                                         "container-values", "sources" };
+                                         "container-values", "sources", "sources" };
 const char SEPS[7] = { ',', ';', ':', '+', '|', '/', '#' };
 const char* const WORDS[12] = { "alpha", "Bravo", "charlie", "DELTA", "echo", "Foxtrot", "golf", "Hotel", "india", "JULIET", "kilo", "Lima" };
+
+std::string gFileDir;      // argument files of the arg-file scenarios
 
 struct Scenario
 {
@@ -222,6 +226,12 @@ Scenario makeScenario(vh::Rng& r, int kind, int sepIdx)
    }
    case K_SET_FORMAT:
       sc.argv = { "-s", joinStrs(sc.words, sc.sep), "-n", joinInts(sc.nums, sc.sep2) };
+      break;
+   case K_ARGFILE:
+      // argument file <dir>/args<variant % 4>.txt (written in main() before any thread starts): variant < 4 -> all threads of a
+      // case read the same file; the file holds "-i <n>" and "--tag file<k>", two of them include a nested file
+      sc.argv = { "-s", sc.words[0], "--arg-file", gFileDir + "/args" + std::to_string(sc.variant % 4) + ".txt" };
+      if (sc.variant & 4) std::swap(sc.argv[0], sc.argv[2]), std::swap(sc.argv[1], sc.argv[3]);
       break;
    case K_ENVVAR:
       // the program file name (argv[0], differs per scenario: variant) names the environment variable TOOL<variant>,
@@ -431,6 +441,21 @@ std::string runScenario(const Scenario& sc)
          dump << "i=" << i << " s=" << s << " tag=" << tag;
          break;
       }
+      case K_ARGFILE:
+      {
+         int i = -1;
+         std::string s, tag;
+         std::vector<int> v;
+         Handler ah(out, err, 0);
+         ah.addArgumentFile("arg-file");
+         ah.addArgument("i", DEST_VAR(i), "Integer");
+         ah.addArgument("s", DEST_VAR(s), "String");
+         ah.addArgument("tag", DEST_VAR(tag), "Tag");
+         ah.addArgument("v", DEST_VAR(v), "Values");
+         ah.evalArguments(ac, av.data());
+         dump << "i=" << i << " s=" << s << " tag=" << tag << " v=" << dumpSeq(v);
+         break;
+      }
       case K_SET_FORMAT:
       {
          std::set<std::string> s;
@@ -523,6 +548,27 @@ int main(int argc, char** argv)
       fprintf(stderr, "unknown mode %s\n", a.mode.c_str());
       return 3;
    }
+   {
+      // argument files of the arg-file scenarios: written once, only read afterwards; 2 and 3 include another file
+      const char* base = getenv("TMPDIR");
+      char dir[512];
+      snprintf(dir, sizeof dir, "%s/celma-c09.XXXXXX", (base && *base) ? base : "/tmp");
+      if (!mkdtemp(dir)) { perror("mkdtemp"); return 2; }
+      gFileDir = dir;
+      for (int k = 0; k < 4; ++k)
+      {
+         std::ofstream f(gFileDir + "/args" + std::to_string(k) + ".txt");
+         f << "# arguments of file " << k << "\n-i " << (2000 + k) << "\n";
+         if (k >= 2) f << "--arg-file " << gFileDir << "/inner" << k << ".txt\n";
+         f << "--tag file" << k << "\n-v " << k << "," << (k + 1) << "," << (k + 2) << "\n";
+      }
+      for (int k = 2; k < 4; ++k)
+      {
+         std::ofstream f(gFileDir + "/inner" + std::to_string(k) + ".txt");
+         f << "-v " << (10 * k) << "," << (10 * k + 1) << "\n";
+      }
+      atexit([] { for (int k = 0; k < 4; ++k) { unlink((gFileDir + "/args" + std::to_string(k) + ".txt").c_str()); unlink((gFileDir + "/inner" + std::to_string(k) + ".txt").c_str()); } rmdir(gFileDir.c_str()); });
+   }
    for (int v = 0; v < 8; ++v)
    {
       // read by the env-var scenarios; never changed once threads exist
@@ -543,8 +589,9 @@ int main(int argc, char** argv)
       std::vector<Worker> ws(T);
       const int k0 = (int)r.below(NKINDS), s0 = (int)r.below(7);
       const int kstep = 1 + (int)r.below(4) * 2;     // NKINDS = 13: every step is coprime
-      const bool envCase = r.chance(1, 5);
+      const bool envCase = r.chance(1, 4);
       const int envBase = (int)r.below(8);
+      const bool fileCase = r.chance(1, 2), sameFile = r.chance(1, 2);
       uint64_t h = vh::hash_u64(T, vh::hash_u64(level));
       for (unsigned t = 0; t < T; ++t)
       {
@@ -552,8 +599,24 @@ int main(int argc, char** argv)
          // based kinds more often
          int kind = (k0 + (int)t * kstep) % NKINDS;
          if (t < 2 && r.chance(1, 2)) kind = (t == 0) ? K_VEC_INT : K_VEC_STR;
-         if (envCase && t < 3) kind = K_ENVVAR;
+         if (envCase && t < 3) kind = fileCase ? K_ARGFILE : K_ENVVAR;
          ws[t].sc = makeScenario(r, kind, s0 + (int)t);
+         if (kind == K_ARGFILE && envCase)
+         {
+            // sameFile: all of them read the same file, otherwise neighbouring files
+            ws[t].sc = makeScenario(r, kind, s0 + (int)t);
+            Scenario c = ws[t].sc;
+            c.variant = sameFile ? (envBase % 4) + (c.variant & 4) : (envBase + (int)t) % 8;
+            Scenario n = makeScenario(r, kind, s0 + (int)t);
+            c.argv = { "-s", c.words[0], "--arg-file", gFileDir + "/args" + std::to_string(c.variant % 4) + ".txt" };
+            if (c.variant & 4) { std::swap(c.argv[0], c.argv[2]); std::swap(c.argv[1], c.argv[3]); }
+            char b[64];
+            snprintf(b, sizeof b, "arg-file variant=%d argv=", c.variant);
+            c.descr = b;
+            for (auto& x : c.argv) c.descr += " " + x;
+            (void)n;
+            ws[t].sc = c;
+         }
          if (kind == K_ENVVAR && envCase)
          {
             // neighbouring threads read different variables
